@@ -23,8 +23,8 @@ var statementKinds = map[string]bool{"group": true, "field": true, "label": true
 
 func oracle(c *Case, o *Obs, res *hx.Result) {
 	// ---- results: every run_result_changed of a run of flow f has its key in Inspect(f).results; its category is
-	// among the spec's categories when that list is non-empty (categories are compared the way inspection itself
-	// merges them: case-insensitively); a result saved without category has no category to look for
+	// among the spec's categories when that list is non-empty (compared exactly, as the statement says and as the run
+	// stores them); a result saved without category has no category to look for
 	check := func(s SavedResult, how string) {
 		res.OracleChecks++
 		in := o.Inspections[s.Flow]
@@ -52,13 +52,22 @@ func oracle(c *Case, o *Obs, res *hx.Result) {
 			return
 		}
 		if s.Category != "" && len(spec.Categories) > 0 {
-			found := false
+			// "among the listed ones": the very category string the run stores (nothing at run time folds case:
+			// saveResult / routeVia store it as written and Results.Save treats Red -> RED as a change)
+			found, upToCase := false, false
 			for _, ct := range spec.Categories {
-				if strings.EqualFold(ct, s.Category) {
+				if ct == s.Category {
 					found = true
+				} else if strings.EqualFold(ct, s.Category) {
+					upToCase = true
 				}
 			}
-			if !found {
+			switch {
+			case found:
+			case upToCase:
+				res.Fail("saved-category-listed-only-up-to-case:"+saver, c, fmt.Sprintf("%s: flow %d node %s saved result %q with category %q; Inspect().results lists %v for key %q (a spelling that differs in letter case only)",
+					how, s.Flow, s.Node, s.Name, s.Category, spec.Categories, key))
+			default:
 				res.Fail("saved-category-not-listed:"+saver, c, fmt.Sprintf("%s: flow %d node %s saved result %q with category %q; Inspect().results lists %v for key %q",
 					how, s.Flow, s.Node, s.Name, s.Category, spec.Categories, key))
 			}
